@@ -1,5 +1,38 @@
 /-!
-  C10 — DOC MapValid
+  C10 — path conditions of the array subscripts of the map-valid kernels that `Model/MapValid.lean` models (owning property C04), frozen from the source the model
+  was written against. `Props/C10/MapValid.lean` (`access_paths_covered_map_valid`) proves that the table regenerated from the CURRENT
+  source (`Gen/KernelPaths.lean`) is this one: a test that dominates a subscript cannot be dropped, weakened or moved in the
+  source without breaking the build.
+
+  Each entry is (site, path condition): the tests passed on the way to that occurrence of the subscript, outermost first —
+  `for …` / `while …` = an enclosing loop guard (the same strings as in `KernelSitesMapValid`), a bare test = the `if` / `elif`
+  branch taken or an `and` operand to the left of the subscript, `not (…)` = an `else` branch, the code after an early exit
+  `if …: break | continue | return | raise`, or an `or` operand to the left. A condition is the text of a test that held
+  when it was passed (a syntactic path, not an invariant). A site reached on several paths has one entry per path.
+  Regenerate with `python3 tools/translate_kernels.py --paths /repo <kernel> …`.
+
+  Which conjunct of the path condition the model's checked accessor relies on (accessor names as in `KernelSitesMapValid`):
+  * `ordered_map_valid_indexed_partial`: `result_values[rv]` and `values[v]` = the capacity test of `ipBody` followed by
+    `readRange`: rely on the early exit `if rv + v_end - v_start > len(result_values): break` — the entry
+    `not (rv + v_end - v_start > len(result_values))` — mirrored conjunct for conjunct (`indexed_partial_buffers_bounded`);
+    `indices[i]`, `indices[i + 1]` = `getI`: rely on the early exit `if i >= i_max: break` (entry `not (i >= i_max)`,
+    mirrored in `ipBody`: the stream asks for the next window of `indices` instead of reading past it); `result_indices[ri]` = the capacity
+    check `s.ri.length < p.capI`: NO test of the kernel bounds `ri` (the commented-out `ri < len(result_indices)`), it is in
+    range because the caller sizes `result_indices` by the sub-chunk length — proved in C04, visible here as the absence of
+    a conjunct; `sm_values[sm]` relies on `while sm < sm_end`.
+  * `ordered_map_valid_partial`: `map_values[sm]`, `result_data[sm]` rely on `while sm < sm_end`; `values[map_values[sm] -
+    d_start]` = `getI` is reached only on `not (map_values[sm] == invalid)`, nothing bounds the computed index (in range by
+    the window the stream reads: C04).
+  * `next_map_subchunk`: every `map_[sm]` is behind `sm < len(map_)` — as the left operand of the two `while` guards or as
+    the `if sm < len(map_)` test before `start = map_[sm]`; the model fuses guard and read (`scanWhile` / `scanAsc`,
+    `m[sm]?` with `none ↦ skip`), so these conjuncts are what makes the model's total read faithful.
+  * `get_valid_value_extents`: `chunk[i]` under `for i in range(start, end)`, `chunk[j]` under `while j >= i`
+    (`firstValidFrom` / `lastValidDown`); the `!= invalid` tests only end the scans.
+  * `safe_map_values`, `map_valid`, `safe_map_indexed_values`: `map_field[i]`, `map_filter[i]`, `result[i]` /
+    `i_result[i + 1]` rely on `for i in range(len(map_field))` (and on the arrays having that length: the owners'
+    hypotheses); `data_field[map_field[i]]`, `data_indices[map_field[i]]`, `data_indices[map_field[i] + 1]` = `getI` are
+    reached only on `map_filter[i]` / `map_field[i] != invalid` — the filter is the ONLY protection of the computed
+    subscript, the model has the same branch.
 -/
 namespace Exetera.KernelPaths
 
